@@ -108,7 +108,14 @@ def gen(rng):
     lam = 299.8 / f
     seg = lam / rng.uniform(20, 40)
     ws = []
-    if ground:
+    if rng.random() < 0.2:
+        # exactly vertical wires, some of them off the z axis (arrays)
+        n = rng.randint(5, 9)
+        z0 = 0.0 if ground else 3.0
+        for k in range(rng.randint(1, 3)):
+            x, y = (0.0, 0.0) if k == 0 and rng.random() < 0.5 else (rng.uniform(-0.4, 0.4) * lam, rng.uniform(-0.4, 0.4) * lam)
+            ws.append((n, x, y, z0, x, y, z0 + n * seg, 0.001))
+    elif ground:
         n = rng.randint(4, 9)
         top = (rng.uniform(-2, 2), rng.uniform(-2, 2), n * seg)
         ws.append((n, 0.0, 0.0, 0.0) + top + (0.001,))
